@@ -24,7 +24,7 @@ if r.returncode != 0:
     print("patch does not apply:", r.stderr); sys.exit(1)
 r = sh("cargo test --offline 2>&1 | grep 'test result' | head -1")
 res["suite_with_patch"] = r.stdout.strip()
-ok_suite = "41 passed; 0 failed" in r.stdout
+m_ = re.search(r"(\d+) passed; 0 failed", r.stdout); ok_suite = bool(m_) and int(m_.group(1)) >= 41
 clean()
 def run_demo():
     if os.path.exists(demo_diff):
